@@ -76,6 +76,9 @@ func init() {
 				cs = append(cs, ev.MkCase("batch", c17Batch{What: "discovery", Count: 60, Seed: seed*17 + int64(k)}))
 				cs = append(cs, ev.MkCase("batch", c17Batch{What: "authwrapper", Count: 1500, Seed: seed*19 + int64(k)}))
 			}
+			for k := 0; k < 12; k++ {
+				cs = append(cs, ev.MkCase("alias", c17Alias{Seed: seed*37 + int64(k), InSession: k%3 != 0}))
+			}
 			for _, n := range []int{70, 130, 260, 300, 600} {
 				cs = append(cs, ev.MkCase("long", c17LongSess{Seed: seed + int64(n), N: n}))
 			}
@@ -112,6 +115,10 @@ func c17Exec(run *ev.Run, c ev.Case) {
 		var o c17SDRHist
 		c.Decode(&o)
 		c17SDR(run, o)
+	case "alias":
+		var o c17Alias
+		c.Decode(&o)
+		c17AliasRun(run, o)
 	case "long":
 		var o c17LongSess
 		c.Decode(&o)
@@ -172,7 +179,7 @@ func c17Exec(run *ev.Run, c ev.Case) {
 			}
 		case "conn":
 			for second := 0; second < len(c17Cmds); second++ {
-				for _, oc := range []string{"ok", "cc:c1", "ccb:d4", "trunc", "garbage-then-ok", "busy-then-ok"} {
+				for _, oc := range []string{"ok", "cc:c1", "ccb:d4", "trunc", "garbage-then-ok", "busy-then-ok", "lost", "refused"} {
 					for _, inSess := range []bool{false, true} {
 						c17ConnPair(run, c17Conn{First: b.Count, Second: second, FirstOutcome: oc, InSession: inSess, Suite: (b.Count + second) % 9, ReuseCmd: b.Count == second, Seed: b.Seed})
 						if oc == "ok" || oc == "ccb:d4" {
@@ -776,4 +783,83 @@ func c17Long(run *ev.Run, o c17LongSess) {
 	}
 	run.Event("long-session-commands", o.N)
 	run.Nontrivial(fmt.Sprintf("long|%d", o.N))
+}
+
+// c17Alias: a result handed to the caller by one of the high-level calls stays
+// what it was when the same call is made again and answered differently (no
+// result may live in storage the connection reuses).
+type c17Alias struct {
+	Seed      int64
+	InSession bool
+}
+
+func c17AliasRun(run *ev.Run, o c17Alias) {
+	r := rng(o.Seed, "c17alias")
+	cfg := defaultCfg(r)
+	e := NewEnv(cfg, memtr.Window)
+	var body []byte
+	e.BMC.Handler = func(evn *refbmc.Event) (byte, []byte, bool) {
+		if evn.NetFn == 0x2c {
+			return 0, append([]byte{0xdc}, body...), true
+		}
+		return 0, body, true
+	}
+	ctx, cancel := bg(60 * time.Second)
+	defer cancel()
+	var sc bmc.SessionCommands
+	var slc bmc.SessionlessCommands = e.ST
+	if o.InSession {
+		sess, err := e.OpenSession(ctx, stdSuites()[int(o.Seed)%9])
+		if err != nil {
+			run.Violation("C17:handshake-failed", err.Error(), ev.MkCase("alias", o), nil)
+			return
+		}
+		sc, slc = sess, sess
+	}
+	type api struct {
+		spec string
+		call func() (any, error)
+	}
+	apis := []api{
+		{"GetChannelAuthenticationCapabilitiesRsp", func() (any, error) {
+			return slc.GetChannelAuthenticationCapabilities(ctx, &ipmi.GetChannelAuthenticationCapabilitiesReq{Channel: ipmi.ChannelPresentInterface})
+		}},
+	}
+	if sc != nil {
+		apis = append(apis,
+			api{"GetDeviceIDRsp", func() (any, error) { return sc.GetDeviceID(ctx) }},
+			api{"GetChassisStatusRsp", func() (any, error) { return sc.GetChassisStatus(ctx) }},
+			api{"GetSessionInfoRsp", func() (any, error) { return sc.GetSessionInfo(ctx, &ipmi.GetSessionInfoReq{}) }},
+			api{"GetSDRRepositoryInfoRsp", func() (any, error) { return sc.GetSDRRepositoryInfo(ctx) }},
+			api{"ReserveSDRRepositoryRsp", func() (any, error) { return sc.ReserveSDRRepository(ctx) }},
+			api{"GetSensorReadingRsp", func() (any, error) { return sc.GetSensorReading(ctx, 7) }},
+		)
+	}
+	for _, a := range apis {
+		sp := specByName(a.spec)
+		type held struct {
+			v    any
+			snap string
+			enc  []byte
+		}
+		var hs []held
+		for i := 0; i < 6; i++ {
+			run.Eval(1)
+			enc, _, br := sp.Gen(r)
+			body = enc
+			v, err := a.call()
+			run.Nontrivial(fmt.Sprintf("alias|%s|%s|%v", a.spec, br, o.InSession))
+			if err != nil || v == nil {
+				continue
+			}
+			for _, h := range hs {
+				if now := fmt.Sprint(valueFields(h.v)); now != h.snap {
+					run.Violation("C17:api:earlier-result-changed:"+a.spec, fmt.Sprintf("%s: the result returned for response %x read %s; after the same call was answered with %x it reads %s", a.spec, h.enc, h.snap, enc, now), ev.MkCase("alias", o), nil)
+					return
+				}
+			}
+			hs = append(hs, held{v, fmt.Sprint(valueFields(v)), enc})
+		}
+	}
+	run.Event("api-results-held", 1)
 }
